@@ -357,6 +357,110 @@ def scripted_peer(v):
     return n
 
 
+def raw_offers(v, vec, tier, rnd):
+    """A requester that no configuration of this implementation could be: its IKE_SA_INIT carries ANY SA payload of the Negotiate.tla universe (AES-CBC without
+    Key Length, an integrity transform with one, 3DES, a group nobody has, no group at all, two proposals) against the real responder with a configured
+    policy: NO_PROPOSAL_CHOSEN with nothing left behind, or exactly SelectBest - INVALID_KE_PAYLOAD naming its group when the KE payload is in another."""
+    import kdf_ref
+    cases = [c for c in vec['select'] if c['mine']['proto'] == 1]
+    odd = [c for c in cases if len(c['sa']) == 2 or any(t['type'] == 1 and (t['id'], t['keylen']) not in ENC_NAME or t['type'] != 1 and t['keylen'] for p in c['sa'] for t in p['transforms'])
+           or not all(any(t['type'] == 4 for t in p['transforms']) for p in c['sa'])]
+    pick = rnd.sample(odd, min(len(odd), 70 if tier == 'quick' else 1500)) + rnd.sample(cases, min(len(cases), 20 if tier == 'quick' else 500))
+    n = 0
+    for c in pick:
+        want = c['out']
+        w = wd.World(opts_by_ep={'A': {}, 'B': ike_cfg(c['mine'])}, seed=common.SEED)
+        try:
+            groups = [t['id'] for t in c['sa'][0]['transforms'] if t['type'] == 4]
+            ke_group = groups[0] if groups and groups[0] in (19, 20, 21) else 19
+            props = [{'num': p['num'], 'proto': 1, 'spi': b'', 'transforms': [{'type': t['type'], 'id': t['id'], 'keylen': t['keylen'] or None} for t in p['transforms']]} for p in c['sa']]
+            req = W.enc_message({'spi_i': b'\x5c' * 8, 'spi_r': b'\0' * 8, 'xchg': 34, 'response': False, 'initiator': True, 'mid': 0},
+                                [{'t': W.SA, 'proposals': props}, {'t': W.KE, 'group': ke_group, 'data': kdf_ref.dh_public(ke_group, 0x1234567)}, {'t': W.NONCE, 'data': b'\x44' * 32}])
+            try:
+                res = w.dispatch('B', req, 'A')
+            except wd.Escape as ex:
+                v.violation(f'a raw offer made the responder raise: {ex}', {'sa': c['sa'], 'mine': c['mine']}, signature={'component': 'raw:escape'})
+                continue
+            n += 1
+            m = W.dec_message(bytes(res)) if res is not None else {'payloads': []}
+            notifies = [(W.notify_name(p['ntype']), p['data']) for p in m['payloads'] if p['t'] == W.NOTIFY and p['ntype'] < 16384]
+            if want == []:
+                if [x[0] for x in notifies] != ['NO_PROPOSAL_CHOSEN'] or w.sas('B'):
+                    v.violation('a raw offer without a common suite is not refused with NO_PROPOSAL_CHOSEN (or an IKE_SA is left behind)',
+                                {'sa': c['sa'], 'mine': c['mine'], 'notifies': [x[0] for x in notifies], 'ike_sas': [s.state.name for s in w.sas('B')]}, signature={'component': 'raw:refuse'})
+                continue
+            chosen_dh = next(t['id'] for t in want['transforms'] if t['type'] == 4)
+            if chosen_dh != ke_group:
+                if [x[0] for x in notifies] != ['INVALID_KE_PAYLOAD'] or struct.unpack('>H', notifies[0][1])[0] != chosen_dh or w.sas('B'):
+                    v.violation('a raw offer whose KE payload is not in the chosen group is not answered with INVALID_KE_PAYLOAD naming that group', {'sa': c['sa'], 'mine': c['mine'],
+                                'notifies': [x[0] for x in notifies]}, signature={'component': 'raw:invalid_ke'})
+                continue
+            sa = next((p for p in m['payloads'] if p['t'] == W.SA), None)
+            got = sorted((t['type'], t['id'], t['keylen'] or 0) for t in sa['proposals'][0]['transforms']) if sa else None
+            if got != aset(want) or (sa and sa['proposals'][0]['num'] != want['num']):
+                v.violation('the suite (or proposal number) chosen for a raw offer differs from the specification', {'sa': c['sa'], 'mine': c['mine'], 'got': got, 'want': aset(want),
+                            'notifies': [x[0] for x in notifies]}, signature={'component': 'raw:choice'})
+        finally:
+            w.close()
+    return n
+
+
+def raw_child_offers(v, vec, tier, rnd):
+    """The same for CREATE_CHILD_SA: an authentic requester (it holds the keys of the IKE_SA) whose SA payload is ANY member of the ChildSas universe -
+    the real request of endpoint A is opened, its SA (and KE) payload replaced, and sealed again."""
+    import kdf_ref
+    cases = [c for c in vec['select'] if c['mine']['proto'] in (2, 3) and c['sa'][0]['proto'] == c['mine']['proto']]
+    odd = [c for c in cases if len(c['sa']) == 2 or any(t['type'] == 1 and (t['id'], t['keylen']) not in ENC_NAME or t['type'] != 1 and t['keylen'] for p in c['sa'] for t in p['transforms'])
+           or not any(t['type'] == 5 for t in c['sa'][0]['transforms'])]
+    pick = rnd.sample(odd, min(len(odd), 50 if tier == 'quick' else 1500)) + rnd.sample(cases, min(len(cases), 15 if tier == 'quick' else 500))
+    n = 0
+    for c in pick:
+        want = c['out']
+        w = wd.World(opts_by_ep={'A': {'proto': 'esp' if c['mine']['proto'] == 3 else 'ah'}, 'B': child_cfg(c['mine'])}, seed=common.SEED)
+        try:
+            w.establish('A')
+            if [s.state.name for s in w.sas('B')] != ['ESTABLISHED']:
+                continue
+            a, b = w.sas('A')[0], w.sas('B')[0]
+            real = W.dec_message(bytes(w.acquire('A', sport=0, dport=0)), probes.keys_of(a.my_crypto))
+            groups = [t['id'] for t in c['sa'][0]['transforms'] if t['type'] == 4]
+            ke_group = groups[0] if groups and groups[0] in (19, 20, 21) else None
+            props = [{'num': p['num'], 'proto': p['proto'], 'spi': bytes([0x0c, 0x0d, 0x0e, p['num']]),
+                      'transforms': [{'type': t['type'], 'id': t['id'], 'keylen': t['keylen'] or None} for t in p['transforms']]} for p in c['sa']]
+            inner = [{'t': W.SA, 'proposals': props}] + [p for p in real['inner'] if p['t'] not in (W.SA, W.KE)]
+            if ke_group:
+                inner.insert(2, {'t': W.KE, 'group': ke_group, 'data': kdf_ref.dh_public(ke_group, 0x7654321)})
+            newsa_before = sum(1 for r in w.kernel['B'].requests if r['kind'] == 'NEWSA')
+            try:
+                res = w.dispatch('B', probes.seal(a, 36, False, real['mid'], inner), 'A')
+            except wd.Escape as ex:
+                v.violation(f'a raw CHILD_SA offer made the responder raise: {ex}', {'sa': c['sa'], 'mine': c['mine']}, signature={'component': 'rawchild:escape'})
+                continue
+            n += 1
+            m = W.dec_message(bytes(res), probes.keys_of(b.my_crypto)) if res is not None else {'inner': []}
+            notifies = [(W.notify_name(p['ntype']), p['data']) for p in m['inner'] if p['t'] == W.NOTIFY and p['ntype'] < 16384]
+            installed = sum(1 for r in w.kernel['B'].requests if r['kind'] == 'NEWSA') - newsa_before
+            sa = next((p for p in m['inner'] if p['t'] == W.SA), None)
+            got = sorted((t['type'], t['id'], t['keylen'] or 0) for t in sa['proposals'][0]['transforms']) if sa else None
+            if want == []:
+                if [x[0] for x in notifies] != ['NO_PROPOSAL_CHOSEN'] or sa is not None or installed:
+                    v.violation('a raw CHILD_SA offer without a common suite is not refused with NO_PROPOSAL_CHOSEN (or kernel SAs are installed)',
+                                {'sa': c['sa'], 'mine': c['mine'], 'notifies': [x[0] for x in notifies], 'got': got, 'installed': installed}, signature={'component': 'rawchild:refuse'})
+                continue
+            want_dh = next((t['id'] for t in want['transforms'] if t['type'] == 4), None)
+            if want_dh is not None and want_dh != ke_group:
+                if [x[0] for x in notifies] != ['INVALID_KE_PAYLOAD'] or struct.unpack('>H', notifies[0][1])[0] != want_dh or sa is not None or installed:
+                    v.violation('a raw CHILD_SA offer whose KE payload is not in the chosen group is not answered with INVALID_KE_PAYLOAD naming that group',
+                                {'sa': c['sa'], 'mine': c['mine'], 'notifies': [x[0] for x in notifies]}, signature={'component': 'rawchild:invalid_ke'})
+                continue
+            if got != aset(want) or (sa and sa['proposals'][0]['num'] != want['num']) or installed != 2:
+                v.violation('the suite (or proposal number) chosen for a raw CHILD_SA offer differs from the specification, or it is not installed as one pair of kernel SAs',
+                            {'sa': c['sa'], 'mine': c['mine'], 'got': got, 'want': aset(want), 'notifies': [x[0] for x in notifies], 'installed': installed}, signature={'component': 'rawchild:choice'})
+        finally:
+            w.close()
+    return n
+
+
 def retry_vectors(v, vec):
     """Negotiate.tla RetryGroupOk: an IKE_SA_INIT answered with INVALID_KE_PAYLOAD naming group g is retried with g iff g is a DH transform of the offer."""
     n = 0
@@ -400,13 +504,14 @@ def run(tier, replay=None):
     n_scr = scripted_peer(v)
     n_child = child_end_to_end(v, vec, tier, rnd)
     n_retry = retry_vectors(v, vec)
+    n_raw = raw_offers(v, vec, tier, rnd) + raw_child_offers(v, vec, tier, rnd)
     sample = vec['select'][0]
-    v.coverage.update({'evaluations': n_fun + n_e2e + n_scr + n_retry + n_child, 'child_end_to_end': n_child, 'retry_suggestions': n_retry, 'distinct_nontrivial': n_fun, 'spec_cases': len(vec['select']),
+    v.coverage.update({'evaluations': n_fun + n_e2e + n_scr + n_retry + n_child + n_raw, 'raw_offers': n_raw, 'child_end_to_end': n_child, 'retry_suggestions': n_retry, 'distinct_nontrivial': n_fun, 'spec_cases': len(vec['select']),
                        'function_level': n_fun, 'classes': n_cls, 'end_to_end_pairs': n_e2e, 'scripted_peer_cases': n_scr,
                        'rule': 'Negotiate.tla universe: IKE local policies (ordered ENCR key lengths, INTEG, DH lists) x peer SA payloads with one or two proposals '
                                'incl. foreign / missing / key-length-mismatching transforms; ESP / AH child policies likewise; property ChoiceOk checked by TLC on '
                                'all cases, each case then compared with Proposal.intersection / is_subset / _select_best_sa_proposal; end to end: pairs of connection '
-                               'configurations; scripted peer answers with extra / foreign transforms and never-offered groups; RetryGroupOk: every group number 0..31 suggested by INVALID_KE_PAYLOAD against offers whose other transform types use the same numbers',
+                               'configurations; scripted peer answers with extra / foreign transforms and never-offered groups; raw offers (SA payloads no configuration can express: AES-CBC without Key Length, INTEG with one, two proposals, no group) sent to the real responder; RetryGroupOk: every group number 0..31 suggested by INVALID_KE_PAYLOAD against offers whose other transform types use the same numbers',
                        'samples': [{'mine': sample['mine'], 'peer_sa': sample['sa'], 'expected': sample['out']}], 'exhaustive': tier == 'thorough'})
     v.assumptions += ['order of the transforms inside the chosen proposal is not compared (not fixed by the property)']
     return v.finish()
